@@ -408,7 +408,8 @@ package skiplist
 //@ func (*AccessBarrier).Acquire @step
 //@ props C16 C04
 //@ mode step
-//@ requires ab != nil && ab.isab && ab.freeq != nil
+//@ requires ab != nil && ab.isab && ab.freeq != nil && ab.mypend == 0 && !ab.mylock
+//@ requires[ghost-counters-nonneg] forall b *BarrierSession {b.myins} :: b.myins >= 0 && b.mytok >= 0
 //@ at-call (*skiplist.AccessBarrier).Release relTok := false
 //@ loop 1 invariant[mine] (forall b *BarrierSession {b.myins} :: b.myins == old(b.myins) && b.mytok == old(b.mytok)) && ab.isab && ab.freeq != nil
 //@ atomic 2 ghost bs.ins := bs.ins + 1
